@@ -242,8 +242,10 @@ func (h *H) rsaInterop() {
 		}
 	}
 	rng := h.rng.Fork()
-	thorough := h.f.Tier == "thorough"
 	for ki, key := range keys {
+		// the dense mutation sweeps only on the two 2048-bit keys: a private-key operation in the
+		// Lean implementation costs ≈12 ms at 2048 bits and ≈100 ms at 4096 bits
+		thorough := h.f.Tier == "thorough" && ki < 2
 		pemS := pemOf(key)
 		k := (key.N.BitLen() + 7) / 8
 		base := func(mon, alg string) map[string]any {
@@ -271,7 +273,7 @@ func (h *H) rsaInterop() {
 				r.check(c, key)
 				step := 16
 				if thorough {
-					step = 3
+					step = 4
 				}
 				for name, ms := range sigMutations(rng, so.out, step) {
 					c := base("verify", alg)
@@ -342,7 +344,7 @@ func (h *H) rsaInterop() {
 				r.check(c, key)
 				step := 32
 				if thorough {
-					step = 5
+					step = 8
 				}
 				for i := 0; i < len(eo.out); i += step {
 					m := cp(eo.out)
